@@ -143,6 +143,18 @@ def crash_excerpt(text):
     return text[-1500:]
 
 
+def violation_signature(msg):
+    import re
+
+    m = re.search(r"#\d+ 0x[0-9a-f]+ in (\w+) /\S*/(?:c/tskit|python|c/subprojects)/\S+", msg)
+    if m:
+        return "crash@" + m.group(1)
+    m = re.search(r"Bug detected in (\S+) at line (\d+)", msg)
+    if m:
+        return "bug_assert@" + m.group(1) + ":" + m.group(2)
+    return msg.split(":")[0][:60]
+
+
 def save_replay(prop, subcheck, case, message, extra=None):
     d = os.path.join(VERIF, "replays", prop)
     os.makedirs(d, exist_ok=True)
@@ -169,13 +181,16 @@ def run_probes(mod, prop, tier, seed, scratch, known_open):
             sc = next(s for s in mod.SUBCHECKS if s.name == scname)
             tasks.append(
                 dict(prop=prop, tier=tier, seed=seed, hseed=0, subcheck=scname, shard=0,
-                     nshards=1, n=1, flavour=sc.flavour, replay_case=case)
+                     nshards=1, n=1, flavour=sc.flavour, replay_case=case, probe_key=e["key"])
             )
             keys.append(e)
     if not tasks:
         return lines
     res = run_tasks(tasks, scratch, [], 600)
-    for (job, r, info), e in zip(res, keys):
+    bykey = {e["key"]: e for e in keys}
+    res.sort(key=lambda x: [e["key"] for e in keys].index(x[0]["probe_key"]))
+    for job, r, info in res:
+        e = bykey[job["probe_key"]]
         still = False
         if r is None:
             still = True  # crash/hang reproducer still kills the worker
@@ -387,9 +402,10 @@ def do_check(mod, prop, tier, seed, scratch, a, t0):
     if violations:
         seen = set()
         for v in violations:
-            if v["subcheck"] in seen:
+            sig = (v["subcheck"], violation_signature(v["message"]))
+            if sig in seen or sum(1 for s in seen if s[0] == v["subcheck"]) >= 6:
                 continue
-            seen.add(v["subcheck"])
+            seen.add(sig)
             path = save_replay(prop, v["subcheck"], v["case"], v["message"],
                                dict(flavour=v["flavour"]))
             print(f"--- {v['subcheck']}: {v['message'][:1500]}")
